@@ -22,6 +22,9 @@ pub struct Section {
     /// object numbers stored in an object stream of this revision but deliberately NOT listed in
     /// its cross-reference section (malformed-but-loadable files for C08)
     pub omit_xref: Vec<u32>,
+    /// extra (number, object) members placed at the front of this revision's first object stream
+    /// and not listed in the cross-reference section: stale duplicates inside one container
+    pub extra_members: Vec<(u32, Object)>,
 }
 
 #[derive(Debug, Clone)]
@@ -570,7 +573,9 @@ pub fn write(spec: &FileSpec, ch: &mut Chooser) -> (Vec<u8>, Layout) {
             let cid = next_id;
             next_id += 1;
             lay.structural.insert(cid);
-            let mut members: Vec<(u32, Object)> = group.iter().map(|id| (id.0, sec.objects[id].clone())).collect();
+            let mut members: Vec<(u32, Object)> = if gi == 0 { sec.extra_members.clone() } else { vec![] };
+            let n_extra = members.len();
+            members.extend(group.iter().map(|id| (id.0, sec.objects[id].clone())));
             if gi == 0 {
                 for (lid, len) in &len_in_objstm {
                     members.push((*lid, Object::Integer(*len)));
@@ -625,7 +630,7 @@ pub fn write(spec: &FileSpec, ch: &mut Chooser) -> (Vec<u8>, Layout) {
             w.put(&data);
             w.put(b"\nendstream\nendobj\n");
             for (i, (num, _)) in members.iter().enumerate() {
-                if sec.omit_xref.contains(num) {
+                if sec.omit_xref.contains(num) || (gi == 0 && i < n_extra) {
                     continue;
                 }
                 entries.insert(*num, XEntry::Compressed { container: cid, index: i });
